@@ -79,7 +79,7 @@ def judge(case, out):
     progs = progs.split(";")
     toks = out.split()
     fails = []
-    if "PANIC" in toks or "BAD" in toks:
+    if "PANIC" in toks or "BAD" in toks or "TIMEOUT" in toks:
         return ["panic: %s" % out[-80:]]
     hang = "HANG" in toks
     has_b = any("b" in p for p in progs)
@@ -243,7 +243,7 @@ def main(tier, seed):
 def f9_reproduces():
     """the recorded witness of F9 (sync_channel(0), blocking send parked between its try_send ping and the rendezvous)"""
     try:
-        out = p_c03.run_batch(vlib.HARNESS, "cchan0", ["f9"])
+        out = p_c03.run_batch(vlib.HARNESS, "cchan0", ["f9"], timeout=90)
         return out and "STUCK" in out[0]
     except Exception:
         return False
